@@ -36,6 +36,7 @@ fn main() {
     let mut out: Vec<Violation> = Vec::new();
     let (mut systems, mut perms, mut renums, mut compared) = (0usize, 0usize, 0usize, 0usize);
     let mut unsat_value_comparisons = 0usize;
+    let mut far_skipped = 0usize;
     for i in 0..n {
         let mut sys = match i % 4 {
             0 => gen_planted(&mut rng, 8, 1e-3, &SHAPES),
@@ -109,7 +110,11 @@ fn main() {
             };
             let mut bad = |what: String, sig: &str| out.push(Violation { property: "C12", what, signature: sig.into(), system: Some(sys.clone()), extra: format!("order {order:?}") });
             if other.outcome.priority_solved() != base.outcome.priority_solved() {
-                bad(format!("solved priority {} vs {} after permuting the requests", other.outcome.priority_solved(), base.outcome.priority_solved()), "perm-priority");
+                // when the plain solve of the permuted list still reaches the base's level, the difference
+                // comes from the freedom analysis failing at a later level under this ordering (faer's SVD
+                // not converging, F18) and the priority loop swallowing that error (F10): known
+                let plain_same = matches!(solve(&reqs, sys.guesses.clone(), sys.config()), Ok(p) if p.priority_solved() == base.outcome.priority_solved());
+                bad(format!("solved priority {} vs {} after permuting the requests", other.outcome.priority_solved(), base.outcome.priority_solved()), if plain_same { "svd-no-convergence-under-reordering" } else { "perm-priority" });
             } else if mapped_unsat != base.outcome.unsatisfied() {
                 bad(format!("unsatisfied {:?} vs {:?} after permuting the requests", mapped_unsat, base.outcome.unsatisfied()), "perm-unsatisfied");
             } else if base.outcome.is_satisfied() {
@@ -117,11 +122,19 @@ fn main() {
                     // borderline participation thresholds are excluded: only report clear differences
                     let a: std::collections::BTreeSet<u32> = under.iter().copied().collect();
                     let b: std::collections::BTreeSet<u32> = other.analysis.underconstrained().iter().copied().collect();
-                    if a.symmetric_difference(&b).count() > 0 && base.outcome.iterations() <= 8 {
+                    let far_u = base.outcome.final_values().iter().any(|v| v.abs() > 1e3 * scale.max(1.0));
+                    if a.symmetric_difference(&b).count() > 0 && base.outcome.iterations() <= 8 && !far_u {
                         bad(format!("under-constrained set {:?} vs {:?} after permuting the requests", b, a), "perm-underconstrained");
                     }
                 }
+                // (a sketch of size 1 drawn at coordinates of 1e5..1e6 resolves its coordinates to about
+                // 1e-10 and its error measures to about 1e-9: with the convergence tolerance 1e-8 and ordinary
+                // conditioning the results of two orders agree to about 1e-6 of the SIZE at best, which is the
+                // property's bound itself; such sketches are compared on verdicts and sets only)
+                let far = base.outcome.final_values().iter().any(|v| v.abs() > 1e3 * scale.max(1.0));
+                if far { far_skipped += 1; }
                 for v in 0..nvars {
+                    if far { break; }
                     let d = (other.outcome.final_values()[v] - base.outcome.final_values()[v]).abs();
                     let tol = if under.contains(&(v as u32)) { 1e-2 } else { 1e-6 } * scale;
                     if d > tol {
@@ -170,10 +183,14 @@ fn main() {
             } else if base.outcome.is_satisfied() {
                 let mut mapped: Vec<u32> = under.iter().map(|v| pi[*v as usize]).collect();
                 mapped.sort();
-                if other.analysis.underconstrained() != mapped.as_slice() && base.outcome.iterations() <= 8 {
+                let far_u = base.outcome.final_values().iter().any(|v| v.abs() > 1e3 * scale.max(1.0));
+                if other.analysis.underconstrained() != mapped.as_slice() && base.outcome.iterations() <= 8 && !far_u {
                     bad(format!("under-constrained set {:?} vs expected {:?} under renumbering", other.analysis.underconstrained(), mapped), "renumber-underconstrained");
                 }
+                let far = base.outcome.final_values().iter().any(|v| v.abs() > 1e3 * scale.max(1.0));
+                if far { far_skipped += 1; }
                 for v in 0..nvars {
+                    if far { break; }
                     let d = (other.outcome.final_values()[pi[v] as usize] - base.outcome.final_values()[v]).abs();
                     let tol = if under.contains(&(v as u32)) { 1e-2 } else { 1e-6 } * scale;
                     if d > tol {
@@ -190,5 +207,5 @@ fn main() {
             println!("VIOLATION {}", v.to_json());
         }
     }
-    println!("STATS {{\"systems\": {systems}, \"request_permutations\": {perms}, \"renumberings\": {renums}, \"outcomes_compared\": {compared}, \"best_effort_results_compared_by_value\": {unsat_value_comparisons}, \"violations\": {}}}", out.len());
+    println!("STATS {{\"systems\": {systems}, \"request_permutations\": {perms}, \"renumberings\": {renums}, \"outcomes_compared\": {compared}, \"best_effort_results_compared_by_value\": {unsat_value_comparisons}, \"far_from_origin_not_compared_by_value\": {far_skipped}, \"violations\": {}}}", out.len());
 }
